@@ -4,6 +4,22 @@ Proof: lean/Sigc/Props/C10.lean (callImpl follows the call operators, callSpec i
 Correspondence: generated translation units of adaptor instantiations over recording targets, three
 routes; the Lean driver's `callImpl` result vs the real library; monitor = the documented transformation
 computed here in Python directly (harness/adapt_gen.py: ExprC10.spec).
+
+Two families beyond plain values:
+  * result identity — targets returning `T&` / `const T&` to their own pool object; the observation says whether the
+    adaptor's result is a reference (`std::is_lvalue_reference<decltype(e(args...))>`) and to which pool object it
+    refers (address comparison).  Direct calls and nested adaptors; `slot<T&(...)>::operator()` and
+    `signal<T&(...)>::emit` do not compile in the current code (`return T_return();`), so on the slot/signal routes
+    the declared return type is the value type and the model converts.
+    `bind_return(f, std::ref(x))` / `std::cref(x)` returns `x` itself, through the separate nullary overload
+    `operator()()` (direct call, or below hide / compose / … called without arguments) and through the variadic one.
+    The getters' results of `compose` reach the setter as the very objects (setter targets with `const T&` parameters
+    record which pool object each parameter is).
+  * move-sensitive arguments — `av::MStr` (a moved-from MStr prints as `m:<moved>`), passed as temporaries,
+    `std::move(x)`, lvalues, through `slot<R(MStr)>` / `slot<R(MStr&&)>`; every target must receive the emitted value,
+    in particular both getters of `compose(s, g1, g2)` whatever their order of evaluation (records are compared per
+    target).  A getter declared `MStr&&` does not compile on the current code (compose2 passes lvalues), so getters
+    take `MStr` / `const MStr&` / by-value template parameters.
 """
 import json
 import os
@@ -19,14 +35,21 @@ MODULE = "Sigc.Props.C10"
 REQUIRED = ["Sigc.C10.tupleStart_eq_take", "Sigc.C10.tupleEnd_eq_drop", "Sigc.C10.bound_in_order",
             "Sigc.C10.bind_insert", "Sigc.C10.bind_append", "Sigc.C10.hide_erase", "Sigc.C10.hide_last",
             "Sigc.C10.impl_eq_spec", "Sigc.C10.result_clauses", "Sigc.C10.exception_catch_throw",
-            "Sigc.C10.routes_agree"]
+            "Sigc.C10.routes_agree", "Sigc.C10.resultMode_forwarding", "Sigc.C10.result_identity",
+            "Sigc.C10.decay_witness", "Sigc.C10.bound_result_identity", "Sigc.C10.nullary_decay_witness",
+            "Sigc.C10.compose_passes_result", "Sigc.C10.getter_decay_witness"]
 TRUSTED = [
     "Lean 4.33.0 kernel (thorough: leanchecker); axioms per theorem as audited by #print axioms",
     "the hand-written model lean/Sigc/Adapt.lean (tupleStart/tupleCdr/tupleEnd/transformEach, argsImpl, callImpl, "
     "SlotM.call, emitValue/emitVoid): tied to sigc++/adaptors/*.h, tuple-utils/*.h, functors/slot.h, signal.h only "
     "by the sampled correspondence below",
     "callSpec / ExprC10.spec as the reading of the documentation (insert at I, append, erase I, drop last, "
-    "static_cast per position, constant result, composition, catcher iff throw, identity)",
+    "static_cast per position, constant result, composition, catcher iff throw, identity; 'returns the result of the "
+    "wrapped functor' read as: the result itself, a reference result is the reference to the same object)",
+    "the table resultMode : ResSite -> declAuto | declared | decays of lean/Sigc/Adapt.lean (how each call operator — "
+    "nullary overloads operator()() are rows of their own, and so is the hand-over of compose's getter results to the "
+    "setter — hands a result on) and the overload selection `nullary` (no arguments and not spelled "
+    ".template operator()<...> as slot_call::call_it does): tied to the code only by the sampled correspondence",
     "generator, C++ support header harness/adapt_support.h, g++ 12, libstdc++ (std::tuple, std::apply, std::invoke), "
     "ASan/UBSan",
 ]
@@ -37,6 +60,13 @@ ASSUMPTIONS = [
     "retype() is exercised over pointer_functor and slot (not over mem_functor); targets are free functions and "
     "functor classes with a non-template operator()",
     "generated functors never destroy a trackable they are bound to (finding F6 is out of scope of C10)",
+    "reference results are covered on the direct-call route and below nested adaptors; slot<T&(...)>::operator() and "
+    "signal<T&(...)>::emit are rejected by the compiler (value-initialisation of a reference), slots/signals over a "
+    "reference-returning functor are declared with the value type",
+    "move-sensitive arguments (MStr): getters of compose(s, g1, g2) take MStr / const MStr& / by-value template "
+    "parameters (a getter declared MStr&& does not compile: compose2 passes lvalues); value-returning signals are not "
+    "declared with MStr&& (do not compile); MStr is never converted from/to the arithmetic types; retype is not "
+    "exercised with MStr",
     "the slot / emit route is modelled minimally (non-empty unblocked slot, no re-entrancy): C01/C03/C13 cover the rest",
 ]
 PARTIAL = []
@@ -93,6 +123,68 @@ def pair_chains(rng, arities):
     return out
 
 
+REF_KINDS = ["Bi", "B", "Hi", "H", "RT", "TO", "EC", "C1", "C2", "RR", "BR"]  # RR: retype_return<T&> or <T>;
+#                                                                               BR: bind_return(f, std::ref/cref(x))
+# call operators with a separate non-template nullary overload (adaptor_functor, bind_return, exception_catch), entered
+# directly and from hide / compose / bind / track_object / exception_catch called without arguments
+NULLARY = [(0, ["BR"]), (1, ["H", "BR"]), (1, [("Hi", 0), "BR"]), (2, ["H", "H", "BR"]), (0, ["C1", "BR"]), (0, ["C2", "BR"]),
+           (0, ["EC", "BR"]), (0, ["TO", "BR"]), (0, ["BR", "BR"]), (0, ["RR", "BR"]), (0, ["EC"]), (1, ["H", "EC"]),
+           (0, ["C1"]), (0, ["TO"]), (0, ["BR", "EC"]), (1, ["H", "TO", "BR"])]
+M_KINDS = ["Bi", "B", "Hi", "H", "SL", "C2", "C2", "C2", "C1", "RR", "HR", "BR", "TO", "EC"]
+M_DIRECTED = [["C2"], ["TO", "C2"], ["EC", "C2"], ["HR", "C2"], ["BR", "C2"], ["RR", "C2"], ["C1", "C2"], ["C2", "C2"],
+              ["C2", "TO"], ["C2", "Hi"], ["Bi", "C2"], ["Hi", "C2"], ["SL", "C2"], ["TO", "EC", "C2"], ["C1"], ["EC"], ["TO"],
+              ["Bi"], ["H"], ["SL"]]
+
+
+def family_cases(ctx, g):
+    """result identity (reference-returning targets) and move-sensitive arguments (MStr)"""
+    rng = ctx.rng
+    out = []
+    # --- reference results: every forwarding adaptor alone, pairs, triples; direct route mostly
+    reps = 3 if ctx.thorough else 1
+    for _ in range(reps):
+        for k in REF_KINDS:
+            out.append(("ref", g.case(rng.below(4), [k], "D", force_ref=True)))
+    for _ in range(reps):
+        for n, ch in NULLARY:
+            out.append(("ref", g.case(n, list(ch), "D", force_ref=True)))
+    # the getters of compose() return references, the setter takes const T&: it must receive the getters' objects
+    g.getter_ref = True
+    for _ in range(reps):
+        for n, ch in [(1, ["C1"]), (2, ["C2"]), (0, ["C2"]), (0, ["C1", "BR"]), (0, ["C2", "BR"]), (2, ["C2", "TO"]), (1, ["C2", "EC"]),
+                      (2, ["C2", "H"]), (1, ["C2", "Bi"]), (2, ["C1", "C2"]), (1, ["TO", "C2"]), (2, ["H", "C2"]), (1, ["C2", "RT"]),
+                      (1, ["EC", "C2"])]:
+            out.append(("getter-ref", g.case(n, list(ch), "DDS"[len(out) % 3])))
+    for i in range(60 if ctx.thorough else 6):
+        ch = [rng.choice(["C2", "C2", "C1"])] + [rng.choice(REF_KINDS) for _ in range(rng.below(2))]
+        out.append(("getter-ref", g.case(rng.below(4), ch, "DSG"[i % 3])))
+    g.getter_ref = False
+    npairs = 150 if ctx.thorough else 16
+    for i in range(npairs):
+        ch = [rng.choice(REF_KINDS) for _ in range(2 + (i % 2))]
+        if i % 3 == 0:
+            ch[rng.below(len(ch))] = "EC"
+        out.append(("ref", g.case(rng.below(4), ch, "D", force_ref=True)))
+    for i in range(40 if ctx.thorough else 6):
+        out.append(("ref", g.case(rng.below(4), [rng.choice(REF_KINDS) for _ in range(1 + i % 2)], "SG"[i % 2],
+                                  conv_ret=rng.chance(0.3), force_ref=True)))
+    # --- MStr
+    reps = 4 if ctx.thorough else 1
+    for _ in range(reps):
+        for i, ch in enumerate(M_DIRECTED):
+            route = "DDS"[i % 3]
+            out.append(("mstr", g.mcase(1 + rng.below(3), ch, route,
+                                        passes=None if rng.chance(0.3) else [rng.choice("tx") for _ in range(3)])))
+    for i in range(300 if ctx.thorough else 20):
+        ch = [rng.choice(M_KINDS) for _ in range(1 + rng.below(3))]
+        out.append(("mstr", g.mcase(1 + rng.below(3), ch, "DDSSG"[i % 5])))
+    cases = []
+    for fam, c in out:
+        c["origin"] = "gen:" + fam
+        cases.append(c)
+    return cases
+
+
 def build_cases(ctx):
     rng = ctx.rng
     g = ag.GenC10(rng)
@@ -130,7 +222,7 @@ def build_cases(ctx):
         c = g.case(n, ch, route, conv_ret=cr)
         c["origin"] = "gen"
         cases.append(c)
-    return cases
+    return cases + family_cases(ctx, g)
 
 
 def edge_stream(ctx, cases):
@@ -176,18 +268,8 @@ def evaluate(cases, per_tu):
     return res, infra, b
 
 
-def norm_impl(s):
-    if s is None or s.startswith("crash:") or s.startswith("nocompile:"):
-        return s
-    log, res = s.split(" res=")
-    return "log=%s res=%s" % (ag.canon_log(log[len("log="):]), res)
-
-
-def norm_model(s):
-    # "wt=1 log=... res=... spec=same"
-    parts = s.split(" ")
-    d = dict(p.split("=", 1) for p in parts if "=" in p)
-    return d.get("wt"), "log=%s res=%s" % (ag.canon_log(d.get("log", "")), d.get("res")), d.get("spec")
+norm_impl = ag.c10_norm_impl
+norm_model = ag.c10_norm_model
 
 
 def classify(cases, results):
@@ -209,7 +291,7 @@ def classify(cases, results):
             d = dict(base)
             d["detail"] = ("the real adaptor did not do what is documented: observed [%s], documented [%s] for %s "
                            "called via route %s with (%s)" % (impl, r["expected"], base["cxx"], c["route"],
-                                                            ", ".join(ag.lit(a) for a in c["args"])))
+                                                            ag.c10_call_text(c)))
             mon.append(d)
         if impl != model or wt != "1" or spec != "same":
             d = dict(base)
@@ -226,24 +308,28 @@ def shrink_candidates(c):
     out = []
     k = e[0]
 
-    def with_(expr, args):
+    ps = list(c.get("pass") or ["t" if a[0] == "m" else "-" for a in c["args"]])
+    sg = list(c["sig"])
+
+    def with_(expr, args, pss=None, sig=None):
         d = dict(c)
         d["expr"] = expr
         d["args"] = tuple(args)
-        d["sig"] = tuple(a[0] for a in args)
-        if d["route"] != "D":
-            nat = ag.ExprC10.natural(expr)
-            d["ret"] = nat
+        d["sig"] = tuple(sig if sig is not None else sg)
+        d["pass"] = tuple(pss if pss is not None else ps)
+        d["ret"] = ag.base_ty(ag.ExprC10.natural(expr))
         return d
 
     args = list(c["args"])
     if k == "B":
         loc = len(args) if e[1] == -1 else e[1]
-        out.append(with_(e[3], args[:loc] + list(e[2]) + args[loc:]))
+        out.append(with_(e[3], args[:loc] + list(e[2]) + args[loc:], ps[:loc] + ["-"] * len(e[2]) + ps[loc:],
+                         sg[:loc] + [b[0] for b in e[2]] + sg[loc:]))
     elif k == "H":
         idx = len(args) - 1 if e[1] == -1 else e[1]
-        out.append(with_(e[2], [a for j, a in enumerate(args) if j != idx]))
-    elif k in ("RR", "BR", "TO"):
+        out.append(with_(e[2], [a for j, a in enumerate(args) if j != idx], [a for j, a in enumerate(ps) if j != idx],
+                         [a for j, a in enumerate(sg) if j != idx]))
+    elif k in ("RR", "RRR", "BR", "TO"):
         out.append(with_(e[2], args))
     elif k == "HR":
         out.append(with_(e[1], args))
@@ -312,7 +398,10 @@ def correspondence(ctx):
         dis = [shrink(dis[0], "dis")] + dis[1:]
     # distribution
     dist = {"routes": {}, "arity": {}, "depth": {}, "adaptor_kinds": {}, "ordered_pairs_seen": 0, "throwing": 0,
-            "return_conversion": 0, "corpus_cases": len(corpus), "edge_stream": len(edge)}
+            "return_conversion": 0, "corpus_cases": len(corpus), "edge_stream": len(edge),
+            "reference_result_observed": 0, "reference_returning_target_cases": 0,
+            "setter_received_getters_object": 0, "mstr_argument_cases": 0,
+            "mstr_rvalue_into_compose2": 0, "mstr_pass": {}}
     pairs = set()
     distinct = set()
     for c, r in zip(cases, results):
@@ -327,7 +416,20 @@ def correspondence(ctx):
             pairs.add((x, y))
         if "threw" in (r["impl"] or ""):
             dist["throwing"] += 1
-        if c["ret"] != ag.ExprC10.natural(c["expr"]) and c["route"] != "D":
+        if "res=ref:" in (r["impl"] or "") or "res=cref:" in (r["impl"] or ""):
+            dist["reference_result_observed"] += 1
+        if " RL " in r["line"]:
+            dist["reference_returning_target_cases"] += 1
+        if "(cref:" in (r["impl"] or "") or ",cref:" in (r["impl"] or ""):
+            dist["setter_received_getters_object"] += 1
+        if any(a[0] == "m" for a in c["args"]):
+            dist["mstr_argument_cases"] += 1
+            for p_ in (c.get("pass") or ()):
+                if p_ != "-":
+                    dist["mstr_pass"][p_] = dist["mstr_pass"].get(p_, 0) + 1
+            if "C2" in ks and (("mr" in c["sig"]) or (c["route"] == "D" and any(p_ in "tx" for p_ in (c.get("pass") or "t")))):
+                dist["mstr_rvalue_into_compose2"] += 1
+        if c["ret"] != ag.base_ty(ag.ExprC10.natural(c["expr"])) and c["route"] != "D":
             dist["return_conversion"] += 1
         if ks and r["impl"] and not r["impl"].startswith(("crash", "nocompile")):
             distinct.add(r["line"])
@@ -384,7 +486,7 @@ def replay(ctx, path):
     r = res[0]
     print("input     :", r["line"])
     print("C++       :", ag.ExprC10.cxx(case["expr"]), " route", case["route"],
-          " args (%s)" % ", ".join(ag.lit(a) for a in case["args"]))
+          " sig (%s)" % ", ".join(ag.CXX_TY[t] for t in case["sig"]), " args (%s)" % ag.c10_call_text(case))
     print("documented:", r["expected"])
     print("observed  :", norm_impl(r["impl"]))
     print("model     :", norm_model(r["model"])[1])
